@@ -1740,7 +1740,11 @@ class CodeGenerator(NodeVisitor):
             if code in ("inf", "-inf", "nan"):
                 code = f"float({code!r})"
         else:
-            code = repr(val)
+            try:
+                code = repr(val)
+            except ValueError:
+                # an int beyond the limit for decimal string conversion
+                code = hex(val)
 
         # A negative number stays a single operand, for example when a
         # folded constant is the base of a power.
